@@ -104,6 +104,43 @@ def generated_schema(k):
     return _gen_schemas[k]
 
 
+def with_fragment_variables(doc, seed):
+    """The document with a variable `$zzOff: Boolean = true` declared by every fragment and a field switched off by it
+    at the top of every selection set inside the fragment, at any depth (sub-selections are collected later, possibly
+    merged with nodes from other scopes); half of the spreads pass the value explicitly."""
+    from graphql import print_ast
+    from graphql.language import ast as A
+    from ..mon.astutil import rebuild
+    rng = random.Random(seed)
+
+    def name(v):
+        return A.NameNode(value=v)
+    off = A.FieldNode(alias=name('zzKey'), name=name('__typename'), directives=(A.DirectiveNode(
+        name=name('skip'), arguments=(A.ArgumentNode(name=name('if'), value=A.VariableNode(name=name('zzOff'))),)),))
+    vdef = A.VariableDefinitionNode(variable=A.VariableNode(name=name('zzOff')), type=A.NamedTypeNode(name=name('Boolean')),
+                                    default_value=A.BooleanValueNode(value=True))
+
+    def in_fragment(n):
+        if isinstance(n, A.SelectionSetNode):
+            return A.SelectionSetNode(selections=(off,) + tuple(n.selections))
+        return None
+    defs = []
+    for d in doc.definitions:
+        if isinstance(d, A.FragmentDefinitionNode):
+            d2 = rebuild(d, in_fragment)
+            defs.append(A.FragmentDefinitionNode(name=d2.name, type_condition=d2.type_condition, directives=d2.directives,
+                                                 selection_set=d2.selection_set, variable_definitions=(vdef,)))
+        else:
+            defs.append(d)
+
+    def spread(n):
+        if isinstance(n, A.FragmentSpreadNode) and rng.random() < 0.5:
+            return A.FragmentSpreadNode(name=n.name, directives=n.directives,
+                                        arguments=(A.FragmentArgumentNode(name=name('zzOff'), value=A.BooleanValueNode(value=True)),))
+        return None
+    return print_ast(rebuild(A.DocumentNode(definitions=tuple(defs)), spread))
+
+
 def make_case(seed, schema=None):
     schema = schema or rich()
     rng = random.Random(seed)
@@ -112,7 +149,17 @@ def make_case(seed, schema=None):
     return {"seed": seed, "source": src, "variables": g.variables(), "fault_rate": [0.0, 0.05, 0.15][seed % 3]}
 
 
+def op_name_of(doc, case):
+    """Every third request names its operation explicitly (the document's own name); the others leave it to the library."""
+    if case["seed"] % 3 != 1:
+        return None
+    from graphql.language import OperationDefinitionNode
+    op = next((d for d in doc.definitions if isinstance(d, OperationDefinitionNode)), None)
+    return op.name.value if op is not None and op.name else None
+
+
 def run_request(schema, doc, case, op_name=None):
+    op_name = op_name or op_name_of(doc, case)
     vf = make_value(schema, case["seed"], case["fault_rate"])
     calls = []
     res = execute_sync(schema, doc, None, variable_values=case["variables"], operation_name=op_name,
@@ -122,6 +169,9 @@ def run_request(schema, doc, case, op_name=None):
 
 def compare(ctx, schema, doc, case, res, calls, vf, op_name=None):
     """Compare one real response with R3.  Returns a violation tuple or None."""
+    op_name = op_name or op_name_of(doc, case)
+    if op_name:
+        ctx.count("requests_naming_their_operation")
     ref = Ref(schema, doc, vf, case["variables"], op_name).run()
     ctx.count("responses_compared_with_R3")
     if ref.get("request_error"):
@@ -192,9 +242,7 @@ def check_case(ctx, case, history_rng=None, others=()):
     # model them): giving every fragment a variable of its own that only switches an extra field off must change
     # nothing - in particular the operation's variables keep their values inside such fragments
     if 'fragment ' in case["source"] and case["seed"] % 4 == 1:
-        import re
-        src2 = re.sub(r'fragment (\w+) on (\w+)((?:\s*@\w+(?:\([^)]*\))?)*)\s*\{',
-                      r'fragment \1($zzOff: Boolean = true) on \2\3 { zzKey: __typename @skip(if: $zzOff)', case["source"])
+        src2 = with_fragment_variables(doc, case["seed"])
         try:
             doc2 = parse(src2, experimental_fragment_arguments=True)
             ok2 = not validate(schema, doc2)
